@@ -355,3 +355,328 @@ Proof.
   - unfold holds_ref. cbn. repeat split; lia.
   - eexists. vm_compute. reflexivity.
 Qed.
+
+(* ================================================================== phase 3: the refinement of the slab model, layers (a) - (c) *)
+From RS Require Import Infer.SlabSim Infer.SlabSimInst Infer.SlabPrims Infer.SlabNodes Infer.SlabNodes2 Infer.SlabNodes3
+  Infer.SlabNodes4 Infer.SlabNodes5 Infer.SlabConstruct.
+
+(* (a) abstraction: a slab state denotes constraints on its UbElements (every element equals its representative,
+   the representative satisfies the bound of its BoundRef); `drsat` is satisfaction in ANY domain with one / sum /
+   product that are injective, distinct and congruent; invariant `cwf`.
+   (b) unify on the slab, in any such domain: a result Ok c' has EXACTLY the models of c in which x and y are equal,
+   keeps the invariant and only coarsens the partition; a result Err means that c has no such model *)
+Theorem C04_slab_unify_generic : forall (D : Type) (deq : D -> D -> Prop) (done : D) (dsum dprod : D -> D -> D),
+  (forall a, deq a a) -> (forall a b, deq a b -> deq b a) -> (forall a b c, deq a b -> deq b c -> deq a c) ->
+  (forall a b c d, deq a c -> deq b d -> deq (dsum a b) (dsum c d)) ->
+  (forall a b c d, deq a c -> deq b d -> deq (dprod a b) (dprod c d)) ->
+  (forall a b c d, deq (dsum a b) (dsum c d) -> deq a c /\ deq b d) ->
+  (forall a b c d, deq (dprod a b) (dprod c d) -> deq a c /\ deq b d) ->
+  (forall a b, ~ deq done (dsum a b)) -> (forall a b, ~ deq done (dprod a b)) ->
+  (forall a b c d, ~ deq (dsum a b) (dprod c d)) ->
+  forall (f : nat) (c : ctx) (x y : nat), cwf c -> (x < length (c_uf c))%nat -> (y < length (c_uf c))%nat ->
+    match ctx_unify f c x y with
+    | Ok c' => post c c' /\ rep (c_uf c') x = rep (c_uf c') y /\
+               (forall al, drsat D deq done dsum dprod al c' <-> drsat D deq done dsum dprod al c /\ deq (al x) (al y))
+    | Err _ => forall al, ~ (drsat D deq done dsum dprod al c /\ deq (al x) (al y))
+    | _ => True
+    end.
+Proof. exact unify_spec_all. Qed.
+Print Assumptions C04_slab_unify_generic.
+
+(* ... and bind: the six arms in their order, recursion on both children, eager completion *)
+Theorem C04_slab_bind_generic : forall (D : Type) (deq : D -> D -> Prop) (done : D) (dsum dprod : D -> D -> D),
+  (forall a, deq a a) -> (forall a b, deq a b -> deq b a) -> (forall a b c, deq a b -> deq b c -> deq a c) ->
+  (forall a b c d, deq a c -> deq b d -> deq (dsum a b) (dsum c d)) ->
+  (forall a b c d, deq a c -> deq b d -> deq (dprod a b) (dprod c d)) ->
+  (forall a b c d, deq (dsum a b) (dsum c d) -> deq a c /\ deq b d) ->
+  (forall a b c d, deq (dprod a b) (dprod c d) -> deq a c /\ deq b d) ->
+  (forall a b, ~ deq done (dsum a b)) -> (forall a b, ~ deq done (dprod a b)) ->
+  (forall a b c d, ~ deq (dsum a b) (dprod c d)) ->
+  forall (f : nat) (c : ctx) (b : nat) (new : rbound) (eb : nat), cwf c -> holds_ref c eb b -> bound_in (length (c_uf c)) new ->
+    match bind f c b new with
+    | Ok c' => post c c' /\
+               (forall al, drsat D deq done dsum dprod al c' <-> drsat D deq done dsum dprod al c /\ dholds_r D deq done dsum dprod al eb new)
+    | Err _ => forall al, ~ (drsat D deq done dsum dprod al c /\ dholds_r D deq done dsum dprod al eb new)
+    | _ => True
+    end.
+Proof. exact bind_spec_all. Qed.
+Print Assumptions C04_slab_bind_generic.
+
+(* in finite types (the semantics of Unify.sat / Infer.res) *)
+Theorem C04_slab_unify_exact : forall fuel c x y, cwf c -> (x < length (c_uf c))%nat -> (y < length (c_uf c))%nat ->
+  match ctx_unify fuel c x y with
+  | Ok c' => cwf c' /\ length (c_uf c') = length (c_uf c) /\ (forall al, rsat al c' <-> rsat al c /\ al x = al y)
+  | Err _ => forall al, ~ (rsat al c /\ al x = al y)
+  | _ => True
+  end.
+Proof. exact fin_unify_exact. Qed.
+Print Assumptions C04_slab_unify_exact.
+
+Theorem C04_slab_bind_exact : forall fuel c b new eb, cwf c -> holds_ref c eb b -> bound_in (length (c_uf c)) new ->
+  match bind fuel c b new with
+  | Ok c' => cwf c' /\ length (c_uf c') = length (c_uf c) /\ (forall al, rsat al c' <-> rsat al c /\ holds_r al eb new)
+  | Err _ => forall al, ~ (rsat al c /\ holds_r al eb new)
+  | _ => True
+  end.
+Proof. exact fin_bind_exact. Qed.
+Print Assumptions C04_slab_bind_exact.
+
+(* in possibly infinite trees: every well-formed slab state has a model, so unify succeeds exactly when the state
+   has a tree model with x = y - the slab-side analogue of C04_solve_ok_iff / C04_solve_err_iff *)
+Theorem C04_slab_tree_model : forall c, cwf c -> tsat_r (rwalk c) c.
+Proof. exact rwalk_model. Qed.
+Print Assumptions C04_slab_tree_model.
+
+Theorem C04_slab_unify_class : forall fuel c x y, cwf c -> (x < length (c_uf c))%nat -> (y < length (c_uf c))%nat ->
+  match ctx_unify fuel c x y with
+  | Ok c' => cwf c' /\ slab_consistent c x y
+  | Err _ => ~ slab_consistent c x y
+  | _ => True
+  end.
+Proof. exact slab_unify_class. Qed.
+Print Assumptions C04_slab_unify_class.
+
+(* the simulation step: a slab state and a reference store with the same models (finite and tree) through an
+   embedding em: unify on the slab and the reference unify both succeed or both fail, and the simulation is kept *)
+Theorem C04_slab_unify_simulates : forall fuel c s em x y, cwf c -> wf s -> msim c s em ->
+  (x < length (c_uf c))%nat -> (y < length (c_uf c))%nat ->
+  match ctx_unify fuel c x y, unify_top s (em x) (em y) with
+  | Ok c', Ok s' => cwf c' /\ wf s' /\ msim c' s' em
+  | Err _, Err _ => True
+  | Ok _, _ | Err _, _ => False
+  | _, _ => True
+  end.
+Proof. exact unify_simulates. Qed.
+Print Assumptions C04_slab_unify_simulates.
+
+(* (c) every arrow constructor (Slab.r_node: iden unit injl injr take drop comp case/assertl/assertr pair
+   disconnect(with/without right child) hidden fail witness word jet) simulates what Constraints.node_tmpl appends
+   to the reference constraint set: on success the new state has exactly the models of the extended set (finite and
+   tree) through an extended embedding and the arrows correspond; Error::Bind (stage 0) only when the extended set has
+   no model in trees; never a shape or occurs error *)
+Theorem C04_slab_node_simulates : forall (fuel : nat) (jt : jet_table) (nd : node) c s eqs em ar_s nb ne a_r,
+  Sim c s eqs em -> arr_in (length (c_uf c)) ar_s ->
+  node_tmpl jt (length s) (map (amap em) ar_s) nd = Some (nb, ne, a_r) -> node_post fuel jt c s eqs em ar_s nd nb ne a_r.
+Proof. exact r_node_sim. Qed.
+Print Assumptions C04_slab_node_simulates.
+
+Theorem C04_slab_nodes_simulate : forall (fuel : nat) (jt : jet_table) p c s eqs em ar_s g',
+  Sim c s eqs em -> arr_in (length (c_uf c)) ar_s ->
+  gen_nodes jt p (mk_gstate s eqs (map (amap em) ar_s)) = Some g' ->
+  match r_nodes fuel jt c ar_s p with
+  | Ok (c', ar') => exists em', Sim c' (g_store g') (g_eqs g') em' /\ g_arr g' = map (amap em') ar' /\
+                                arr_in (length (c_uf c')) ar'
+  | Err (RBind 0 _ _, _) => ~ consistent (g_store g') (g_eqs g')
+  | Err _ => False
+  | _ => True
+  end.
+Proof. exact r_nodes_sim. Qed.
+Print Assumptions C04_slab_nodes_simulate.
+
+Theorem C04_slab_sim_empty : Sim empty_ctx [] [] (fun e => e).
+Proof. exact Sim_empty. Qed.
+Print Assumptions C04_slab_sim_empty.
+
+(* the construction stage of RunSlab.r_infer (all nodes, then set_arrow_to_program) against the reference `infer`:
+   Error::Bind with the same stage, never shape / occurs; on success the reference passes both unification stages and
+   the slab state has exactly the models of all generated constraints *)
+Theorem C04_slab_construct_refines : forall (fuel : nat) (jt : jet_table) (program : bool) (p : prog) (root : nat) (g : gstate) rb re,
+  gen jt p = Some g -> root_tmpl g (if program then Some root else None) = Some (rb, re) ->
+  match r_construct fuel jt program p root with
+  | Ok (c, ar) =>
+      (exists em, Sim c (g_store g ++ rb) (g_eqs g ++ re) em /\ g_arr g = map (amap em) ar /\ arr_in (length (c_uf c)) ar) /\
+      ((exists tau, infer jt (if program then Some root else None) p = Ok tau) \/
+       infer jt (if program then Some root else None) p = Err EOccurs)
+  | Err (RBind st _ _, _) => infer jt (if program then Some root else None) p = Err (EBind st)
+  | Err _ => False
+  | _ => True
+  end.
+Proof. exact construct_sim. Qed.
+Print Assumptions C04_slab_construct_refines.
+
+(* the statements are not vacuous: a clash at the program root, reported at stage 1 by both *)
+Example C04_ex_construct :
+  (exists c ar, r_construct 100 [] false [NIden; NUnit; NPair 0 1; NTake 2] 3 = Ok (c, ar)) /\
+  (exists ex nb c, r_construct 100 [] true [NIden; NDrop 0; NCase 1 0] 2 = Err (RBind 1 ex nb, c)) /\
+  infer [] (Some 2%nat) [NIden; NDrop 0; NCase 1 0] = Err (EBind 1).
+Proof. split; [|split]; [eexists; eexists; vm_compute; reflexivity|eexists; eexists; eexists; vm_compute; reflexivity|vm_compute; reflexivity]. Qed.
+
+(* ------------------------------------------------------------------ phase 3: layer (e) for the outcomes decided at construction time *)
+From RS Require Import Infer.SlabRun Infer.SlabResult.
+
+(* C04_slab_refines_reference_statement restricted to shape / Bind outcomes: for EVERY input, whenever the slab run
+   does not end in Panic / OutOfFuel and either model reports a shape error or Error::Bind, the two canonical outputs
+   are equal (the stage of the Bind error included) *)
+Theorem C04_slab_run_refines_bind_shape : forall (fmode : nat) (program : bool) (order : list nat)
+    (jets : list (N * N * list N * list N)) (p : prog),
+  let a := run_infer program order jets p in
+  let b := run_rinfer fmode program order jets p in
+  (forall k, b <> [9; k]%N) -> b <> [8]%N ->
+  bind_or_shape a \/ bind_or_shape (strip99 b) -> strip99 b = a.
+Proof. exact run_refines_bind_shape. Qed.
+Print Assumptions C04_slab_run_refines_bind_shape.
+
+(* what finalisation has to decide, on the slab alone: after a successful construction the reference accepts exactly
+   when the slab state has a finite model, reports OccursCheck exactly when it has none, and its arrows are the values
+   of the LEAST finite model of the slab state *)
+Theorem C04_slab_construct_result_spec : forall (fuel : nat) (jt : jet_table) (program : bool) (p : prog) (root : nat)
+    (g : gstate) rb re c ar,
+  gen jt p = Some g -> root_tmpl g (if program then Some root else None) = Some (rb, re) ->
+  r_construct fuel jt program p root = Ok (c, ar) ->
+  let r := infer jt (if program then Some root else None) p in
+  cwf c /\
+  (forall tau, r = Ok tau -> exists be, least_model be c /\ tau = map (img be) ar) /\
+  ((exists tau, r = Ok tau) <-> exists be, rsat be c) /\
+  (r = Err EOccurs <-> ~ exists be, rsat be c).
+Proof. exact construct_result_spec. Qed.
+Print Assumptions C04_slab_construct_result_spec.
+
+(* the finalisation stage of the slab model only ever reports the occurs check *)
+Theorem C04_slab_finish_errors : forall fmode p canon root c ar x cx,
+  r_finish fmode p canon root c ar = Err (x, cx) -> x = ROccurs.
+Proof. exact r_finish_err. Qed.
+Print Assumptions C04_slab_finish_errors.
+
+Theorem C04_slab_infer_split : forall fuel jt fmode program p canon root,
+  r_infer fuel jt fmode program p canon root =
+  Outcome.obind (r_construct fuel jt program p root) (fun '(c, ar) => r_finish fmode p canon root c ar).
+Proof. exact r_infer_split. Qed.
+Print Assumptions C04_slab_infer_split.
+
+Example C04_ex_run_bind :
+  run_infer true [] [] [NIden; NDrop 0; NCase 1 0] = [1; 20; 1]%N /\
+  strip99 (run_rinfer 0 true [] [] [NIden; NDrop 0; NCase 1 0]) = [1; 20; 1]%N.
+Proof. split; vm_compute; reflexivity. Qed.
+
+(* ------------------------------------------------------------------ phase 3: layer (d) and the run-level statement *)
+From RS Require Import Infer.SlabFin Infer.SlabFinK Infer.SlabRun2.
+
+(* (d) Type::finalize on the slab model, when the state has a finite model be giving One to its free classes (the least
+   model does: C04_slab_least_frees_one): the occurs check (explicit stack, in_progress / completed sets) does not fire,
+   the completion loop returns the value of be, memoises it in the slab and keeps the partition *)
+Theorem C04_slab_finalize : forall be c e, Inv be c -> (e < length (c_uf c))%nat ->
+  match finalize c e with
+  | Ok (c', Some t) => Inv be c' /\ keeps_part c c' /\ t = be e
+  | Ok (_, None) => False
+  | _ => True
+  end.
+Proof. exact finalize_spec. Qed.
+Print Assumptions C04_slab_finalize.
+
+Theorem C04_slab_least_frees_one : forall be c, cwf c -> least_model be c -> frees_one be c.
+Proof. exact least_frees_one. Qed.
+Print Assumptions C04_slab_least_frees_one.
+
+(* every finalisation order of the harness (fmode 0..3) reads the values of that model on every node arrow *)
+Theorem C04_slab_finish : forall be fmode p canon root c ar, Inv be c -> arr_in (length (c_uf c)) ar ->
+  match r_finish fmode p canon root c ar with
+  | Ok tau => tau = map (fun i => img be (nth i ar None)) canon
+  | Err _ => False
+  | _ => True
+  end.
+Proof. exact r_finish_spec. Qed.
+Print Assumptions C04_slab_finish.
+
+(* (e) C04_slab_refines_reference_statement for EVERY input, under "the slab run does not end in Panic / OutOfFuel",
+   with one case left open (reference: OccursCheck, slab model: every arrow finalised) *)
+Theorem C04_slab_refines_reference_partial : forall (fmode : nat) (program : bool) (order : list nat)
+    (jets : list (N * N * list N * list N)) (p : prog),
+  let a := run_infer program order jets p in
+  let b := run_rinfer fmode program order jets p in
+  (forall k, b <> [9; k]%N) -> b <> [8]%N ->
+  strip99 b = a \/ (a = [1; 22; 2]%N /\ exists l, b = 0%N :: l).
+Proof. exact run_refines_partial. Qed.
+Print Assumptions C04_slab_refines_reference_partial.
+
+(* ------------------------------------------------------------------ phase 3: construction orders given as lists *)
+From RS Require Import Infer.OrderRun.
+
+(* a valid order (Run.valid_order) is a permutation and Run.permute is the renumbering of Order.v *)
+Theorem C04_valid_order_perm : forall n order, valid_order n order = true ->
+  perm_of n (pos_of order) (fun k => nth k order 0%nat).
+Proof. exact valid_order_perm. Qed.
+Print Assumptions C04_valid_order_perm.
+
+Theorem C04_permute_permuted : forall p order, valid_order (length p) order = true ->
+  permuted (pos_of order) p (permute p order).
+Proof. exact permute_permuted. Qed.
+Print Assumptions C04_permute_permuted.
+
+(* C04_class_order_statement for the class "accepted": for EVERY table and EVERY valid construction order the reference
+   accepts both or rejects both, and on acceptance every node has the same arrow; which error class is reported
+   (Bind stage 0 / 1, OccursCheck, shape) remains C04_class_order_statement *)
+Theorem C04_class_order_ok : forall (jt : jet_table) (program : bool) (p : prog) (order : list nat),
+  valid_order (length p) order = true -> wf_from 0 p = true -> wf_from 0 (permute p order) = true ->
+  match infer jt (root_of program p (fun i => i)) p, infer jt (root_of program p (pos_of order)) (permute p order) with
+  | Ok tau, Ok tau' => forall i, (i < length p)%nat -> nth (pos_of order i) tau' None = nth i tau None
+  | Err _, Err _ => True
+  | _, _ => False
+  end.
+Proof. exact class_order_ok. Qed.
+Print Assumptions C04_class_order_ok.
+
+Theorem C04_class_order_zero : forall (jt : jet_table) (program : bool) (p : prog) (order : list nat),
+  valid_order (length p) order = true -> wf_from 0 p = true -> wf_from 0 (permute p order) = true ->
+  (class_of (infer jt (root_of program p (pos_of order)) (permute p order)) = 0%N <->
+   class_of (infer jt (root_of program p (fun i => i)) p) = 0%N).
+Proof. exact class_order_zero. Qed.
+Print Assumptions C04_class_order_zero.
+
+From RS Require Import Infer.OrderShape.
+
+(* if the reference generates constraints for a table, it does so for every renumbering of it *)
+Theorem C04_gen_permuted : forall jt p p' pi pinv g, perm_of (length p) pi pinv -> permuted pi p p' -> topo p -> topo p' ->
+  gen jt p = Some g -> exists g', gen jt p' = Some g'.
+Proof. exact gen_permuted. Qed.
+Print Assumptions C04_gen_permuted.
+
+(* C04_class_order_statement for the class "shape error" ... *)
+Theorem C04_class_order_shape : forall (jt : jet_table) (program : bool) (p : prog) (order : list nat),
+  valid_order (length p) order = true -> wf_from 0 p = true -> wf_from 0 (permute p order) = true ->
+  (class_of (infer jt (root_of program p (pos_of order)) (permute p order)) = 1%N <->
+   class_of (infer jt (root_of program p (fun i => i)) p) = 1%N).
+Proof. exact class_order_shape. Qed.
+Print Assumptions C04_class_order_shape.
+
+(* ... hence the three-way class accepted / not a construction / type error is the same for every valid construction
+   order of every table; what C04_class_order_statement adds is the distinction Bind 0 / Bind 1 / OccursCheck *)
+Theorem C04_class_order_coarse : forall (jt : jet_table) (program : bool) (p : prog) (order : list nat),
+  valid_order (length p) order = true -> wf_from 0 p = true -> wf_from 0 (permute p order) = true ->
+  coarse_class (class_of (infer jt (root_of program p (pos_of order)) (permute p order))) =
+  coarse_class (class_of (infer jt (root_of program p (fun i => i)) p)).
+Proof. exact class_order_coarse. Qed.
+Print Assumptions C04_class_order_coarse.
+
+(* ------------------------------------------------------------------ phase 3: C04_class_order_statement, proved *)
+From RS Require Import Infer.OrderModels.
+
+(* the two instances of a node's constraint template under two numberings are related variable by variable *)
+Theorem C04_tmpl_related : forall jt n n' ar ar' f nd nb ne a nb' ne' a',
+  child_ok ar ar' f nd -> node_tmpl jt n ar nd = Some (nb, ne, a) ->
+  node_tmpl jt n' ar' (rename_node f nd) = Some (nb', ne', a') ->
+  Forall2 (brel (R n n' ar ar' f nd)) nb nb' /\ Forall2 (erel (R n n' ar ar' f nd)) ne ne' /\ arel (R n n' ar ar' f nd) a a'.
+Proof. exact tmpl_related. Qed.
+Print Assumptions C04_tmpl_related.
+
+(* hence the constraints of two renumberings of a table have the same models with the same values on every node arrow
+   (finite types or infinite trees, with and without the program-root constraints) ... *)
+Theorem C04_constraints_permuted : forall jt p p' pi pinv g g' (root : option nat) rb re rb' re',
+  perm_of (length p) pi pinv -> permuted pi p p' -> topo p -> topo p' ->
+  gen jt p = Some g -> gen jt p' = Some g' -> (forall r, root = Some r -> (r < length p)%nat) ->
+  root_tmpl g root = Some (rb, re) -> root_tmpl g' (option_map pi root) = Some (rb', re') ->
+  (consistent (g_store g ++ rb) (g_eqs g ++ re) -> consistent (g_store g' ++ rb') (g_eqs g' ++ re')) /\
+  (finite_model (g_store g ++ rb) (g_eqs g ++ re) -> finite_model (g_store g' ++ rb') (g_eqs g' ++ re')).
+Proof.
+  intros jt p p' pi pinv g g' root rb re rb' re' P Pm T T' G G' Hr R0 R1. split; intros M.
+  - apply cons_iff. apply cons_iff in M.
+    eapply (cons_transfer itree teq tone tsum tprod); try eassumption; dom_hyps.
+  - apply fm_iff. apply fm_iff in M.
+    eapply (cons_transfer ty eq One Sum Prod); try eassumption; SlabSimInst.fin_hyps.
+Qed.
+Print Assumptions C04_constraints_permuted.
+
+(* ... and the error CLASS of the reference inference (accepted / shape / Bind stage 0 / Bind stage 1 / OccursCheck) is
+   the same for every valid construction order of every table: C04_class_order_statement holds *)
+Theorem C04_class_order : C04_class_order_statement.
+Proof. exact class_order. Qed.
+Print Assumptions C04_class_order.
